@@ -53,15 +53,15 @@ UsesHighImm(op)   == op \in {224, 240}
 UsesHighC(op)     == op \in {226, 242}
 
 \* one case: opcode op (second byte cb when op = 0xCB, else -1), lattice index j, flag index fi
-MkCase(id, op, cb, j, fi) ==
+MkCaseX(id, op, cb, j, fi, pcO, b1O) ==
   LET hl == At(ByteLattice, j)
       bc0 == At(ByteLattice, j + 5)
       de == At(ByteLattice, j + 11)
       sp == At(WordLattice, j)
-      pc == At(PcLattice, j)
+      pc == IF pcO >= 0 THEN pcO ELSE At(PcLattice, j)
       cReg == IF UsesHighC(op) THEN At(HighOK, j) ELSE Lo(bc0)
       nAddr == At(WordLattice, j + 3)
-      b1 == IF op = 203 THEN cb
+      b1 == IF b1O >= 0 THEN b1O ELSE IF op = 203 THEN cb
             ELSE IF UsesImm16Addr(op) THEN Lo(nAddr)
             ELSE IF UsesHighImm(op) THEN At(HighOK, j)
             ELSE IF j % 3 = 0 THEN At(ByteVals, j) ELSE Rnd(id, 1)
@@ -89,6 +89,8 @@ MkCase(id, op, cb, j, fi) ==
       exp |-> [s |-> out.s, st |-> out.st, cyc |-> out.cyc, wr |-> out.wr,
                rb |-> [k \in 1..Len(addrs) |-> <<addrs[k], BusRead(Cart0, store2, addrs[k])>>]]]
 
+MkCase(id, op, cb, j, fi) == MkCaseX(id, op, cb, j, fi, -1, -1)
+
 \* enumeration: 245 base opcodes (0xCB excluded from base, it is expanded to 256 CB forms)
 OpList == [i \in 1..500 |-> IF i <= 244
                             THEN <<BaseOps[i], -1>>
@@ -105,8 +107,20 @@ CaseAt(k) ==   \* k in 0..Total-1
       fi == r % NF
   IN MkCase(k, OpList[oi + 1][1], OpList[oi + 1][2], j, fi)
 
-Mine == SelectSeq([i \in 1..Total |-> i - 1], LAMBDA k : k % Shards = Shard)
+\* ---- family "jr": every displacement of every relative jump from program counters at both ends of
+\* the address space and of each executable region (16-bit wrap-around of the target)
+Family == Env("FAMILY", "lattice")
+JrOps == <<24, 32, 40, 48, 56>>
+JrPcs == <<0, 2, 16368, 16384, 32752, 49152, 57328, 65408, 65520>>
+JrTotal == 5 * 256 * 9 * 4
+JrAt(k) == LET oi == k % 5  r1 == k \div 5  disp == r1 % 256  r2 == r1 \div 256  pi == r2 % 9  fi == r2 \div 9
+           IN MkCaseX(1000000 + k, JrOps[oi + 1], -1, k, fi, JrPcs[pi + 1], disp)
 
-ASSUME PrintT(<<"GEN_INSTR", "total", Total, "mine", Len(Mine), "out", OutFile>>)
-ASSUME ndJsonSerialize(OutFile, [i \in 1..Len(Mine) |-> CaseAt(Mine[i])])
+N == IF Family = "jr" THEN JrTotal ELSE Total
+Gen(k) == IF Family = "jr" THEN JrAt(k) ELSE CaseAt(k)
+\* shard k takes the cases Shard, Shard + Shards, ... (index arithmetic: nothing is re-evaluated per case)
+Count == IF N > Shard THEN ((N - 1 - Shard) \div Shards) + 1 ELSE 0
+
+ASSUME PrintT(<<"GEN_INSTR", Family, "total", N, "mine", Count, "out", OutFile>>)
+ASSUME ndJsonSerialize(OutFile, [i \in 1..Count |-> Gen(Shard + (i - 1) * Shards)])
 =============================================================================
